@@ -1,0 +1,90 @@
+//go:build verif
+
+package consensus
+
+import (
+	coreb "github.com/nspcc-dev/neo-go/pkg/core/block"
+	"github.com/nspcc-dev/neo-go/pkg/core/transaction"
+	npayload "github.com/nspcc-dev/neo-go/pkg/network/payload"
+)
+
+// This file is a test seam for the external verification harness (/verif).
+// It is compiled only with `-tags verif` and adds no behaviour to normal builds.
+
+// VerifDriver gives synchronous access to the handlers of a consensus service
+// that is NOT started (no event loop, no timer channel is read): the caller
+// plays the event loop and decides which payload, timeout, transaction or
+// chain block is handled next. Every method does exactly what the
+// corresponding case of eventLoop does, on the caller's goroutine.
+type VerifDriver struct{ s *service }
+
+// VerifDrive wraps a Service created by NewService. Do not call Start on it.
+func VerifDrive(srv Service) *VerifDriver { return &VerifDriver{s: srv.(*service)} }
+
+// Start initialises dBFT at the current chain height like Service.Start does,
+// without starting the event loop (a primary sends its PrepareRequest here).
+func (d *VerifDriver) Start() {
+	b, _ := d.s.Chain.GetBlock(d.s.Chain.CurrentBlockHash())
+	d.s.lastTimestamp = b.Timestamp
+	d.s.dbft.Start(d.s.lastTimestamp * nsInMs)
+}
+
+// Deliver handles one consensus payload: OnPayload's decoding and validation,
+// then eventLoop's message case. It returns false if the payload was dropped
+// before reaching dBFT.
+func (d *VerifDriver) Deliver(ep *npayload.Extensible) bool {
+	p := d.s.payloadFromExtensible(ep)
+	if err := p.decodeData(); err != nil {
+		return false
+	}
+	if !d.s.validatePayload(p) {
+		return false
+	}
+	if rec, ok := p.payload.(*recoveryMessage); ok && rec.preparationHash == nil {
+		req := rec.GetPrepareRequest(p, d.s.dbft.Validators, uint16(d.s.dbft.PrimaryIndex))
+		if req != nil {
+			h := req.Hash()
+			rec.preparationHash = &h
+		}
+	}
+	d.s.dbft.OnReceive(p)
+	return true
+}
+
+// Timeout fires the timer of the current height and view.
+func (d *VerifDriver) Timeout() { d.s.dbft.OnTimeout(d.s.dbft.BlockIndex, d.s.dbft.ViewNumber) }
+
+// Transaction hands a requested transaction to dBFT.
+func (d *VerifDriver) Transaction(tx *transaction.Transaction) { d.s.dbft.OnTransaction(tx) }
+
+// ChainBlock tells the service that the ledger has a new block.
+func (d *VerifDriver) ChainBlock(b *coreb.Block) { d.s.handleChainBlock(b) }
+
+// VerifState is a read-only snapshot of the dBFT context.
+type VerifState struct {
+	Height       uint32
+	View         byte
+	MyIndex      int
+	PrimaryIndex uint
+	RequestSeen  bool
+	ResponseSent bool
+	CommitSent   bool
+	BlockSent    bool
+	// CommitViews[i] is the view of the Commit payload stored for validator i, -1 if none.
+	CommitViews []int
+}
+
+// State returns a read-only snapshot of the dBFT context.
+func (d *VerifDriver) State() VerifState {
+	c := &d.s.dbft.Context
+	st := VerifState{Height: c.BlockIndex, View: c.ViewNumber, MyIndex: c.MyIndex, PrimaryIndex: c.PrimaryIndex,
+		RequestSeen: c.RequestSentOrReceived(), ResponseSent: c.MyIndex >= 0 && c.ResponseSent(), CommitSent: c.CommitSent(), BlockSent: c.BlockSent()}
+	for _, p := range c.CommitPayloads {
+		if p == nil {
+			st.CommitViews = append(st.CommitViews, -1)
+		} else {
+			st.CommitViews = append(st.CommitViews, int(p.ViewNumber()))
+		}
+	}
+	return st
+}
